@@ -60,7 +60,19 @@ static struct mask topo_init_thread_affinity_mask(struct topo *t, size_t core, s
   m.bits = (uint16_t) (1u << (t->pu_base[c] + vx_small_mod(pu, t->core_pus[c])));
   return m;
 }
-static struct mask topo_get_cpubind_mask_main_thread(struct topo *t) { struct mask m; m.bits = t->proc_mask; return m; }
+static struct mask topo_get_cpubind_mask_main_thread(struct topo *t)
+{
+  struct mask m;
+  m.bits = t->proc_mask;
+  return m;
+}
+/* a read cached in a function-local static by an earlier call: the mask may have been replaced since */
+static struct mask topo_get_cpubind_mask_cached_in_static(struct topo *t)
+{
+  struct mask m;
+  m.bits = nondet_bool() ? t->proc_mask : nondet_u16();
+  return m;
+}
 static bool mask_bit_and(struct mask a, struct mask b) { return (a.bits & b.bits) != 0; }
 static bool mask_any(struct mask m) { return m.bits != 0; }
 static size_t vx_popcount16(uint16_t x)
